@@ -113,6 +113,7 @@ type axSink struct {
 }
 
 type axisEngine struct {
+	dead  map[*ssa.Call]bool // calls whose result only feeds a store that is overwritten before every read
 	c     *props.Ctx
 	p     *c09path
 	sums  map[*ssa.Function]*axSummary
@@ -126,8 +127,8 @@ type axisOutcome struct {
 	analysed map[*ssa.Function]bool
 }
 
-func axisRules(c *props.Ctx, p *c09path) *axisOutcome {
-	e := &axisEngine{c: c, p: p, sums: map[*ssa.Function]*axSummary{}, viFld: map[*types.Var]int{}, viol: map[*ssa.Function]int{}}
+func axisRules(c *props.Ctx, p *c09path, dead map[*ssa.Call]bool) *axisOutcome {
+	e := &axisEngine{c: c, p: p, dead: dead, sums: map[*ssa.Function]*axSummary{}, viFld: map[*types.Var]int{}, viol: map[*ssa.Function]int{}}
 	mp := c.P.Pkg("modeling")
 	if mp == nil {
 		c.R.Failf("anchor package modeling not found")
@@ -475,6 +476,9 @@ func (e *axisEngine) analyse(fn *ssa.Function) {
 						sink("vector3.New", a, args[a], x.Pos())
 					}
 				case x.Call.StaticCallee() == e.p.index && len(args) >= 3:
+					if e.dead[x] {
+						break
+					}
 					for a := 0; a < 3; a++ {
 						sink("index", a, args[len(args)-3+a], x.Pos())
 					}
@@ -513,7 +517,9 @@ func (e *axisEngine) analyse(fn *ssa.Function) {
 	for r := range votes {
 		roots = append(roots, r)
 	}
-	sort.Slice(roots, func(i, j int) bool { return roots[i].Pos() < roots[j].Pos() || roots[i].Pos() == roots[j].Pos() && roots[i].Name() < roots[j].Name() })
+	sort.Slice(roots, func(i, j int) bool {
+		return roots[i].Pos() < roots[j].Pos() || roots[i].Pos() == roots[j].Pos() && roots[i].Name() < roots[j].Name()
+	})
 	sum := &axSummary{demand: map[int]int{}, retFlows: map[int]bool{}}
 	rootAxis := map[ssa.Value]int{}
 	for _, r := range roots {
